@@ -71,7 +71,13 @@ impl DelegateToDefaultImpl for Rc<Unimock> {
     type Delegator = Rc<DefaultImplDelegator>;
 
     fn to_delegator(self) -> Self::Delegator {
-        Rc::new(DefaultImplDelegator::__from_unimock((*self).clone()))
+        // A uniquely owned instance moves into the delegator, like a by-value receiver does.
+        // Cloning it and dropping the `Rc` here would tear down (and verify) the instance
+        // in the middle of the call, while its own clone is still alive.
+        match Rc::try_unwrap(self) {
+            Ok(unimock) => Rc::new(DefaultImplDelegator::__from_unimock(unimock)),
+            Err(shared) => Rc::new(DefaultImplDelegator::__from_unimock((*shared).clone())),
+        }
     }
 
     fn from_delegator(delegator: Self::Delegator) -> Self {
@@ -83,7 +89,11 @@ impl DelegateToDefaultImpl for Arc<Unimock> {
     type Delegator = Arc<DefaultImplDelegator>;
 
     fn to_delegator(self) -> Self::Delegator {
-        Arc::new(DefaultImplDelegator::__from_unimock((*self).clone()))
+        // see the `Rc` implementation
+        match Arc::try_unwrap(self) {
+            Ok(unimock) => Arc::new(DefaultImplDelegator::__from_unimock(unimock)),
+            Err(shared) => Arc::new(DefaultImplDelegator::__from_unimock((*shared).clone())),
+        }
     }
 
     fn from_delegator(delegator: Self::Delegator) -> Self {
